@@ -508,6 +508,8 @@ class Fn:
             return self._select(base, projs)
         if k == "agg":
             name = rv["agg"] if rv["agg"] != "adt" else rv["adt"] + "::" + rv["variant"]
+            if rv["agg"] == "adt" and rv.get("fields"):
+                AGG_FIELDS[name] = tuple(rv["fields"])
             if rv["agg"] == "closure":
                 name = "closure:" + rv["closure"]["path"]
             return self._select((("agg", name, tuple(self.apath(o, depth - 1, at) for o in rv["ops"]), d[1]), ()), projs)
@@ -550,10 +552,35 @@ class Fn:
             return None
         return self.apath(succ[0], depth)
 
-    @staticmethod
-    def _select(base, projs):
+    def mutated_types(self):
+        """Types of the locals of this function that are changed after they were put together (a field is assigned, or the
+        local is borrowed mutably): a field of such a struct is not what it was built from."""
+        if "_mutated_types" not in self.__dict__:
+            import re
+            out = set()
+            def note(pl):
+                ty = str(self.raw["locals"][pl["l"]]) if pl["l"] < len(self.raw["locals"]) else ""
+                ty = re.sub(r"^&(mut )?", "", ty)
+                out.add(re.sub(r"<.*$", "", ty))
+            for b in self.blocks:
+                for st in b["stmts"]:
+                    if st.get("k") != "assign":
+                        continue
+                    if [p for p in st["place"]["p"] if p != "*"]:
+                        note(st["place"])
+                    rv = st.get("rv", {})
+                    if rv.get("k") == "ref" and (rv.get("mut") or rv.get("bk") in ("Mut", "Mutable")) :
+                        note(rv["place"])
+                t = b["term"]
+                if t and t["k"] == "call" and t.get("dest") and [p for p in t["dest"]["p"] if p != "*"]:
+                    note(t["dest"])
+            self._mutated_types = out
+        return self._mutated_types
+
+    def _select(self, base, projs):
         """A field of a value that was just put together is the operand it was built from: `(closure{a, b}).1` is b,
-        `(Some{x} as Some).0` is x."""
+        `(Some{x} as Some).0` is x, `Candidate{name, unit, power}.power` is power - unless values of that struct type are
+        changed in place somewhere in this function."""
         root = base[0]
         projs = base[1] + tuple(projs)
         while root[0] == "agg" and projs:
@@ -565,6 +592,11 @@ class Fn:
                 break
             if str(p0).isdigit() and int(p0) < len(root[2]) and (str(root[1]).startswith(("closure:", "tuple")) or "::" in str(root[1])):
                 sub = root[2][int(p0)]
+                root, projs = sub[0], sub[1] + projs[1:]
+            elif isinstance(p0, str) and p0 in AGG_FIELDS.get(root[1], ()) and len(AGG_FIELDS[root[1]]) == len(root[2]) \
+                    and str(root[1]).rsplit("::", 1)[0] not in self.mutated_types():
+                # a named field of a struct value that was just put together (`SingleUnit{value, base, power}.power`)
+                sub = root[2][AGG_FIELDS[root[1]].index(p0)]
                 root, projs = sub[0], sub[1] + projs[1:]
             else:
                 break
@@ -672,6 +704,9 @@ class Fn:
         for n in rest:
             out[n] = info["otherwise"]
         return out
+
+
+AGG_FIELDS = {}     # aggregate name -> field names, as seen in the facts (see Fn._select)
 
 
 class Facts:
